@@ -5,7 +5,7 @@ are abstracted by a contract (registering returns w <= count and leaves w future
 """
 import re
 
-from vf.cxx2c import Rewriter, attach_loop_contracts
+from vf.cxx2c import drop_pinned, Rewriter, attach_loop_contracts
 from vf.extract import ExtractionBreak, find_body, match_brace
 from vf.runner import Job
 
@@ -145,9 +145,19 @@ void harness(void) { g_calls = 0; lam(0); VF_CANARY("end"); }
     b = find_body(repo, F, r'bool\s+WaitIterator\s*\(', 'detail::WaitIterator')
     t = re.sub(r'static_assert\((?:[^()]|\((?:[^()]|\([^()]*\))*\))*\)\s*;', '', b.text)
     from vf.cxx2c import drop_pinned
+    # the choice of the event class is translated (not pinned): a range of SharedFutures needs a node per input (DynamicSharedEvent), see job wait/WaitCore
+    from vf.cxx2c import translate_selection
+    t, it_cond, it_a, it_b = translate_selection('WaitIterator', t, 'FinalEvent', [], ['kShared'], ['DynamicSharedEvent', 'CoreEvent'])
+
+    def it_nodes(x):
+        if x[0] == 'CoreEvent' and not x[1]:
+            return '1'
+        if x[0] == 'DynamicSharedEvent' and x[1] == 'CoreEvent':
+            return 'count'
+        raise ExtractionBreak('WaitIterator: event class outside the vocabulary: %s<%s>' % x)
+    IT_NODES = '((%s) ? (%s) : (%s))' % (it_cond, it_nodes(it_a), it_nodes(it_b))
     t = drop_pinned('WaitIterator', t, ['static constexpr bool kShared = std::is_same_v<decltype(it->GetHandle()), SharedHandle>;',
-                                        'using CoreEvent = MultiEvent<Event, AtomicCounter, CallCallback>;',
-                                        'using FinalEvent = std::conditional_t<kShared, DynamicSharedEvent<CoreEvent>, CoreEvent>;'])
+                                        'using CoreEvent = MultiEvent<Event, AtomicCounter, CallCallback>;'])
     m = re.search(r'auto\s+range\s*=\s*\[&\]\s*\(auto&&\s*func\)\s*noexcept\s*\{', t)
     if not m:
         raise ExtractionBreak('WaitIterator: range lambda not found')
@@ -156,11 +166,14 @@ void harness(void) { g_calls = 0; lam(0); VF_CANARY("end"); }
     lam = t[m.end():cb]
     t = t[:m.start()] + 'int range = 0;' + t[e + 1:]
     pre = [(r'YACLIB_ASSERT\(it->Valid\(\)\)\s*;', '', 0), (r'WaitCore<Event>\(\s*timeout\s*,\s*it->GetHandle\(\)\s*\)', 'WaitCore1(timeout)', 0),
-           (r'FinalEvent\s+event\s*\{\s*([^{};]+)\}\s*;', r'size_t event = EVENT_CTOR(\1);', 0), (r'WaitRange\(\s*event\s*,\s*timeout\s*,\s*range\s*,\s*([^)]+)\)', r'WaitRangeStub(event, \1)', 0), (r'std::size_t', 'size_t', 0)]
+           (r'FinalEvent\s+event\s*\{\s*([^{};]+)\}\s*;', r'size_t event = EVENT_CTOR(\1, IT_NODES, count);', 0), (r'WaitRange\(\s*event\s*,\s*timeout\s*,\s*range\s*,\s*([^)]+)\)', r'WaitRangeStub(event, \1)', 0), (r'std::size_t', 'size_t', 0)]
     c = Rewriter('WaitIterator', pre=pre).rewrite(t)
-    src = '#include "vf.h"\n' + '''unsigned g_core1, g_ranges, g_events; size_t g_event_total, g_range_count; int g_ret;
+    src = '#include "vf.h"\n#define IT_NODES %s      /* translated from `using FinalEvent = std::conditional_t<...>` */\n' % IT_NODES + '''unsigned g_core1, g_ranges, g_events; size_t g_event_total, g_range_count; int g_ret; unsigned char kShared;
 int WaitCore1(int timeout) __CPROVER_assigns(g_core1) __CPROVER_ensures(g_core1 == OLD(g_core1) + 1 && RET == g_ret);
-size_t EVENT_CTOR(size_t total) __CPROVER_assigns(g_events, g_event_total) __CPROVER_ensures(g_events == OLD(g_events) + 1 && g_event_total == total && RET == total);
+size_t EVENT_CTOR(size_t total, size_t nodes, size_t n)
+/* C11, C06: a node for every SharedFuture of the range (each links the waiter into its callback list through the node's `next`; a node can be in one list only) */
+__CPROVER_requires(nodes >= (kShared ? n : 0))
+__CPROVER_assigns(g_events, g_event_total) __CPROVER_ensures(g_events == OLD(g_events) + 1 && g_event_total == total && RET == total);
 int WaitRangeStub(size_t event_total, size_t count) __CPROVER_requires(event_total == count + 1) __CPROVER_assigns(g_ranges, g_range_count) __CPROVER_ensures(g_ranges == OLD(g_ranges) + 1 && g_range_count == count && RET == g_ret);
 int WaitIterator(int timeout, int it, size_t count)
 __CPROVER_requires(g_core1 == 0 && g_ranges == 0 && g_events == 0 && count < (1UL << 62))
@@ -168,7 +181,7 @@ __CPROVER_assigns(g_core1, g_ranges, g_events, g_event_total, g_range_count)
 /* nothing to wait for => true at once; one future => the single-future path; otherwise an event sized count + 1 (the waiter's own unit) and WaitRange over exactly `count` futures */
 __CPROVER_ensures(count == 0 ? (RET == 1 && g_core1 == 0 && g_ranges == 0) : count == 1 ? (g_core1 == 1 && g_ranges == 0 && RET == g_ret) : (g_core1 == 0 && g_ranges == 1 && g_range_count == count && g_event_total == count + 1 && RET == g_ret))
 {''' + c + '''}
-void harness(void) { size_t n; g_core1 = g_ranges = g_events = 0; WaitIterator(0, 0, n); if (n == 0) VF_CANARY("empty"); else if (n == 1) VF_CANARY("single"); else VF_CANARY("many"); }
+void harness(void) { size_t n; g_core1 = g_ranges = g_events = 0; kShared = nondet_uchar() & 1; WaitIterator(0, 0, n); if (n == 0) VF_CANARY("empty"); else if (n == 1) VF_CANARY("single"); else VF_CANARY("many"); }
 '''
     out.append(Job('wait/WaitIterator', props, src, 'harness', enforce='WaitIterator', replace=['WaitCore1', 'EVENT_CTOR', 'WaitRangeStub'], funcs=[b], canaries=3,
                    expect=[r'postcondition', r'precondition'], meta={'fn': 'WaitIterator'}))
@@ -197,4 +210,62 @@ void harness(void) { g_applied = g_sum = 0; range_lambda(); VF_CANARY("end"); }
     src = '#include "vf.h"\nvoid lemma(void) { __CPROVER_assert(%d, "WaitCore: the stack event is constructed with sizeof...(handles) + 1 units"); __CPROVER_assert(%d, "WaitCore: WaitRange is called over exactly sizeof...(handles) futures"); VF_CANARY("lemma reachable"); }\n' % (
         1 if mctor else 0, 1 if mcall else 0)
     out.append(Job('wait/WaitCore.sizing', props, src, 'lemma', kind='lemma', funcs=[b], expect=[r'WaitCore'], meta={'fn': 'WaitCore'}))
+    # WaitCore under contract: its two compile-time selections are TRANSLATED (vf.cxx2c.translate_selection), the pack size and the number of shared handles are symbolic
+    try:
+        from vf.cxx2c import translate_selection
+        t = b.text
+        atoms = [(r'sizeof\.\.\.\(\s*(?:handles|Handles)\s*\)', 'N')]
+        t, c_final, fa, fb = translate_selection('detail::WaitCore', t, 'FinalEvent', atoms, ['N', 'kSharedCount'], ['CoreEvent', 'StaticSharedEvent'])
+        t, c_core, ca, cb = translate_selection('detail::WaitCore', t, 'CoreEvent', atoms, ['N', 'kSharedCount'], ['MultiEvent'])
+
+        def counter_of(args):
+            m = re.match(r'^Event\s*,\s*(OneCounter|AtomicCounter)\s*,\s*CallCallback$', args)
+            if not m:
+                raise ExtractionBreak('detail::WaitCore: CoreEvent alternative outside the vocabulary: MultiEvent<%s>' % args)
+            return 'K_' + m.group(1)
+
+        def final_of(cls, args):
+            if cls == 'CoreEvent':
+                return 'F_CORE', '1'          # the event itself is the one callback node
+            m = re.match(r'^CoreEvent\s*,\s*(\w+)$', args)
+            if not m:
+                raise ExtractionBreak('detail::WaitCore: FinalEvent alternative outside the vocabulary: StaticSharedEvent<%s>' % args)
+            return 'F_STATIC_SHARED', m.group(1)
+        (fka, fna), (fkb, fnb) = final_of(*fa), final_of(*fb)
+        t = drop_pinned('detail::WaitCore', t, ['static constexpr std::size_t kSharedCount = kCount<SharedHandle, Handles...>;'])
+        # the fold-expression lambda `range` is pinned textually (proved separately as far as extractable: job wait/WaitIterator.range is its iterator twin)
+        t, k = re.subn(r'auto\s+range\s*=\s*\[&\]\(auto&&\s+func\)\s*noexcept\s*\{\s*return\s*\(\.\.\.\s*\+\s*static_cast<std::size_t>\(func\(handles\)\)\)\s*;\s*\}\s*;', '', t)
+        if k != 1:
+            raise ExtractionBreak('detail::WaitCore: the fold-expression range lambda no longer has the pinned shape')
+        pre = [(r'FinalEvent\s+event\s*\{\s*([^{};]+)\}\s*;', r'EVENT_CTOR(FINAL_KIND, FINAL_NODES, CORE_KIND, \1);', 1),
+               (r'return\s+WaitRange\(\s*event\s*,\s*timeout\s*,\s*range\s*,\s*([^;]+)\)\s*;', r'return WAIT_RANGE(\1);', 1), (r'sizeof\.\.\.\(\s*(?:handles|Handles)\s*\)', 'N', 0)]
+        c = Rewriter('detail::WaitCore', pre=pre).rewrite(t)
+        src = '#include "vf.h"\n' + '''enum { K_OneCounter = 1, K_AtomicCounter }; enum { F_CORE = 1, F_STATIC_SHARED };
+unsigned long N, kSharedCount;          /* pack size and number of SharedFuture handles in it: symbolic configuration */
+#define CORE_KIND ((%s) ? %s : %s)      /* translated from `using CoreEvent = std::conditional_t<...>` */
+#define FINAL_KIND ((%s) ? %s : %s)     /* translated from `using FinalEvent = std::conditional_t<...>` */
+#define FINAL_NODES ((%s) ? (%s) : (%s))
+unsigned g_ctors, g_waits; unsigned long g_units, g_range_n; unsigned char g_final, g_core; unsigned long g_nodes; int g_wr;
+void EVENT_CTOR(int final_kind, unsigned long nodes, int core_kind, unsigned long units) __CPROVER_requires(g_ctors == 0)
+/* C11: the stack event counts one unit per listed future plus one for the waiter itself */
+__CPROVER_requires(units == N + 1)
+/* C11, C16: a single-owner counter (OneCounter) cannot count - only for exactly one future; */
+__CPROVER_requires(core_kind == K_OneCounter ==> N == 1)
+/* C11, C06: every SharedFuture links the waiter into its intrusive callback list through the `next` of the node it is given, and a node can be in one list only: the event
+   itself is one node, StaticSharedEvent<.., k> brings k of its own - there must be a node for every shared handle */
+__CPROVER_requires(nodes >= kSharedCount)
+__CPROVER_assigns(g_ctors, g_units, g_final, g_core, g_nodes) __CPROVER_ensures(g_ctors == 1 && g_units == units && g_final == final_kind && g_core == core_kind && g_nodes == nodes);
+int WAIT_RANGE(unsigned long n) __CPROVER_requires(g_ctors == 1 && g_waits == 0) __CPROVER_assigns(g_waits, g_range_n) __CPROVER_ensures(g_waits == 1 && g_range_n == n && RET == g_wr);
+int WaitCore(int timeout)
+__CPROVER_requires(N >= 1 && N < (1UL << 32) && kSharedCount <= N && g_ctors == 0 && g_waits == 0)
+__CPROVER_assigns(g_ctors, g_units, g_final, g_core, g_nodes, g_waits, g_range_n)
+/* one event of the right shape, one WaitRange over exactly the listed futures, its verdict returned unchanged */
+__CPROVER_ensures(g_ctors == 1 && g_waits == 1 && g_range_n == N && g_units == N + 1 && RET == g_wr)
+{''' % (c_core, counter_of(ca[1]), counter_of(cb[1]), c_final, fka, fkb, c_final, fna, fnb) + c + '''}
+void harness(void) { g_ctors = g_waits = 0; N = nondet_ulong(); kSharedCount = nondet_ulong(); WaitCore(0);
+  if (kSharedCount > 1) VF_CANARY("several shared handles"); else if (N == 1) VF_CANARY("single future"); else VF_CANARY("several futures"); }
+'''
+        out.append(Job('wait/WaitCore', props, src, 'harness', enforce='WaitCore', replace=['EVENT_CTOR', 'WAIT_RANGE'], funcs=[b], canaries=3, expect=[r'postcondition', r'precondition'], meta={'fn': 'WaitCore'}))
+    except ExtractionBreak as e:
+        ctx.breaks.append(str(e))
     return out
